@@ -560,16 +560,20 @@ def hyWrap (Ω : Geo G) (mh : Bool) (fs : List (Frag G)) : List (Frag G) :=
   else hyWrapGo Ω [] ((regionIds Ω.regionBreak fs).zip fs)
 
 /-- head-anchored grouping of consecutive items into lines (`sort_and_merge_fragments`,
-    `detect_and_sort_columns`) -/
-def groupLines (same : (Nat × Frag G) → (Nat × Frag G) → Bool) :
-    List (Nat × Frag G) → List (List (Nat × Frag G))
-  | [] => []
-  | x :: r =>
-    (x :: r.takeWhile (same x)) :: groupLines same (r.dropWhile (same x))
-termination_by l => l.length
-decreasing_by
-  simp only [List.length_cons]
-  exact Nat.lt_succ_of_le (List.length_dropWhile_le _ _)
+    `detect_and_sort_columns`, `merge_into_lines`): an item joins the newest line when `same head
+    item`, otherwise it opens a new line.  `acc` = lines so far, newest first, each newest-first. -/
+def groupGo {α : Type} (same : α → α → Bool) : List (List α) → List α → List (List α)
+  | acc, [] => (acc.map List.reverse).reverse
+  | [], x :: r => groupGo same [[x]] r
+  | ln :: acc, x :: r =>
+    match ln.getLast? with
+    | some head =>
+      if same head x then groupGo same ((x :: ln) :: acc) r
+      else groupGo same ([x] :: ln :: acc) r
+    | none => groupGo same ([x] :: acc) r
+
+def groupLines {α : Type} (same : α → α → Bool) (xs : List α) : List (List α) :=
+  groupGo same [] xs
 
 def ordLe (o : Ordering) : Bool := o != .gt
 
@@ -607,19 +611,6 @@ def lineText (Ω : Geo G) : Option G → List (Frag G) → List Nat
 def buildLine (Ω : Geo G) (ln : List (Frag G)) : Frag G :=
   { text := lineText Ω none ln, g := Ω.lineGeom (ln.map (·.g)) }
 
-/-- line grouping of `merge_into_lines`: items are (row id, emission index, fragment); `acc` holds
-    the lines built so far, newest first, each newest-first. -/
-def linesGo (Ω : Geo G) :
-    List (List (Nat × Nat × Frag G)) → List (Nat × Nat × Frag G) → List (List (Nat × Nat × Frag G))
-  | acc, [] => (acc.map List.reverse).reverse
-  | [], x :: r => linesGo Ω [[x]] r
-  | ln :: acc, x :: r =>
-    match ln.getLast? with
-    | some head =>
-      if head.1 == x.1 && Ω.lineJoin head.2.2.g x.2.2.g then linesGo Ω ((x :: ln) :: acc) r
-      else linesGo Ω ([x] :: ln :: acc) r
-    | none => linesGo Ω ([x] :: acc) r
-
 /-- `merge_into_lines` -/
 def mergeIntoLines (Ω : Geo G) (fs : List (Frag G)) : List (Frag G) :=
   let rows := regionIds Ω.rowBreak fs
@@ -631,7 +622,7 @@ def mergeIntoLines (Ω : Geo G) (fs : List (Frag G)) : List (Frag G) :=
       | .lt => true
       | .gt => false
       | .eq => ordLe (Ω.cmpX a.2.2.g b.2.2.g)
-  let lines := linesGo Ω [] sorted
+  let lines := groupLines (fun h x => h.1 == x.1 && Ω.lineJoin h.2.2.g x.2.2.g) sorted
   lines.map fun ln =>
     let ordered :=
       if isTagged || Ω.prefersEmission (ln.map fun x => (x.2.1, x.2.2.g)) then
